@@ -110,14 +110,14 @@ def toStmt (b0 b1 b2 : BitVec 8) : Option Stmt :=
     let v16 : BitVec 32 := (u8 b2 <<< 8) ||| u8 b1
     let v := if bytesOf r.op = 3 then v16 else v8
     let op := r.op
-    if bytesOf op ≤ 1 then some ⟨name, 0, .none⟩
-    else if op = M6502_OP_IMMEDIATE then some ⟨name, 0, .imm .none v⟩
-    else if op = M6502_OP_ADDRESS8 ∨ op = M6502_OP_ADDRESS16 then some ⟨name, 0, .addr .none v⟩
-    else if op = M6502_OP_INDEXED8_X ∨ op = M6502_OP_INDEXED16_X then some ⟨name, 0, .addrX .none v⟩
-    else if op = M6502_OP_INDEXED8_Y ∨ op = M6502_OP_INDEXED16_Y then some ⟨name, 0, .addrY .none v⟩
-    else if op = M6502_OP_INDIRECT16 ∨ op = M6502_OP_INDIRECT8 then some ⟨name, 0, .ind .none v⟩
-    else if op = M6502_OP_X_INDIRECT8 ∨ op = M6502_OP_X_INDIRECT16 then some ⟨name, 0, .indX .none v⟩
-    else if op = M6502_OP_INDIRECT8_Y then some ⟨name, 0, .indY .none v⟩
+    if bytesOf op ≤ 1 then some ⟨name, .s0, .none⟩
+    else if op = M6502_OP_IMMEDIATE then some ⟨name, .s0, .imm .none v⟩
+    else if op = M6502_OP_ADDRESS8 ∨ op = M6502_OP_ADDRESS16 then some ⟨name, .s0, .addr .none v⟩
+    else if op = M6502_OP_INDEXED8_X ∨ op = M6502_OP_INDEXED16_X then some ⟨name, .s0, .addrX .none v⟩
+    else if op = M6502_OP_INDEXED8_Y ∨ op = M6502_OP_INDEXED16_Y then some ⟨name, .s0, .addrY .none v⟩
+    else if op = M6502_OP_INDIRECT16 ∨ op = M6502_OP_INDIRECT8 then some ⟨name, .s0, .ind .none v⟩
+    else if op = M6502_OP_X_INDIRECT8 ∨ op = M6502_OP_X_INDIRECT16 then some ⟨name, .s0, .indX .none v⟩
+    else if op = M6502_OP_INDIRECT8_Y then some ⟨name, .s0, .indY .none v⟩
     else none
 
 /-! ### `disasm_range_6502` -/
